@@ -32,7 +32,7 @@ Proof.
   pose proof (alive_pos s) as Hpos.
   destruct l; step_cases H.
   all: constructor; simpl; intros; try solve [auto]; fin.
-  all: try (timeout 20 fin2).
+  all: fin2.
   all: try solve [ match goal with Hl : lp _ ?h = _ |- _ => specialize (Hpos h IA); rewrite Hl in Hpos; simpl in Hpos end;
                    rew_pcs; simpl in *; fwd; lia ].
   all: try solve [ match goal with Hc : cp _ ?c = CSignal |- _ => destruct (Csig c Hc) as [_ Hcl]; destruct (Ccl Hcl) as (_ & _ & Hw1 & Hw2) end;
@@ -67,7 +67,7 @@ Proof.
   pose proof (c_run1 s IC) as Crun.
   destruct l; step_cases H.
   all: constructor; simpl; intros; try solve [auto]; upd_all; try solve [auto]; fin.
-  all: inst_all; try (timeout 20 fin); try (timeout 20 fin2).
+  all: inst_all; fin; fin2.
   all: unfold hctx_done in *.
   all: try solve [ repeat match goal with Hb : orb _ _ = true |- _ => apply orb_true_iff in Hb; destruct Hb end;
                    rew_pcs; simpl in *; fwd; rew_pcs; simpl in *; intuition (congruence || lia) ].
